@@ -534,3 +534,92 @@ Proof.
   - rewrite l_index_none; [reflexivity|]. intros Hin. apply (Inv0_keys s x H) in Hin.
     unfold d_mem in Hin. rewrite G in Hin. discriminate.
 Qed.
+
+(* ---- pop --------------------------------------------------------------------------------- *)
+Lemma rev_cons_split {A} (l : list A) y r : rev l = y :: r -> l = rev r ++ [y].
+Proof. intros H. rewrite <- (rev_involutive l), H. reflexivity. Qed.
+
+Lemma pop_end_inv0 s its' x :
+  Inv0 s -> items s = its' ++ [Some x] ->
+  let s1 := mkIS its' (d_del (imap s) x) (dead s) in
+  Inv0 s1 /\ m_live s = m_live s1 ++ [x].
+Proof.
+  intros [H1 H2 H3 H4] E. cbn zeta. unfold m_live in *. rewrite E in *. simpl.
+  assert (LV : live_of (its' ++ [Some x]) = live_of its' ++ [x]) by (rewrite live_of_app; reflexivity).
+  split; [constructor; simpl|exact LV].
+  - eapply layout_removelast. exact H1.
+  - assert (Ex : nth_error (its' ++ [Some x]) (length its') = Some (Some x)).
+    { rewrite nth_error_app2 by lia. rewrite Nat.sub_diag. reflexivity. }
+    intros y i. rewrite (d_get_del _ _ _ H3). destruct (Nat.eqb y x) eqn:Ey.
+    + apply Nat.eqb_eq in Ey. subst y. split; [discriminate|]. intros G.
+      assert (Li : i < length its') by (apply nth_error_Some; congruence).
+      assert (G2 : nth_error (its' ++ [Some x]) i = Some (Some x)) by (rewrite nth_error_app1 by lia; exact G).
+      pose proof (map_ok_inj _ _ _ _ _ H2 G2 Ex). lia.
+    + apply Nat.eqb_neq in Ey. split.
+      * intros G. apply H2 in G. destruct (Nat.lt_ge_cases i (length its')) as [L|L].
+        -- rewrite nth_error_app1 in G by lia. exact G.
+        -- rewrite nth_error_app2 in G by lia. destruct (i - length its') as [|k]; simpl in G; [congruence|].
+           destruct k; discriminate.
+      * intros G. apply H2. assert (Li : i < length its') by (apply nth_error_Some; congruence).
+        rewrite nth_error_app1 by lia. exact G.
+  - apply d_del_nodup. exact H3.
+  - assert (M : d_mem (imap s) x = true).
+    { apply (map_ok_mem _ _ x H2). rewrite LV. apply in_or_app. right. left. reflexivity. }
+    pose proof (d_del_length _ _ M) as L. rewrite LV, app_length in H4. simpl in H4.
+    unfold m_live; simpl. lia.
+Qed.
+
+Lemma lastlive_rev its : lastlive its -> rev its = [] \/ exists x r, rev its = Some x :: r.
+Proof.
+  intros [->|[x Hx]]; [left; reflexivity|].
+  destruct (rev its) as [|o r] eqn:E; [left; reflexivity|right].
+  apply rev_cons_split in E. subst its. rewrite last_last in Hx. subst o. eauto.
+Qed.
+
+Lemma pop_inv c s i : Inv s ->
+  valid_op (m_live s) (Pop i) = true ->
+  Inv (fst (m_pop c s i)) /\
+  m_live (fst (m_pop c s i)) = fst (spec_step (m_live s) (Pop i)) /\
+  snd (m_pop c s i) = snd (spec_step (m_live s) (Pop i)).
+Proof.
+  intros [H HL] V. unfold m_pop.
+  set (at_end := match i with None => true
+                 | Some i => ((i =? -1) || (i =? Z.of_nat (m_len s) - 1))%Z end).
+  assert (Hlen : m_len s = length (m_live s)) by (apply (inv_len s H)).
+  destruct at_end eqn:AE.
+  - (* list.pop() *)
+    destruct (lastlive_rev _ HL) as [R|(x & r & R)].
+    + rewrite R. assert (E : items s = []) by (rewrite <- (rev_involutive (items s)), R; reflexivity).
+      assert (EL : m_live s = []) by (unfold m_live; rewrite E; reflexivity).
+      split; [split; assumption|]. cbn [fst snd]. rewrite EL in *. destruct i as [i|]; simpl.
+      * simpl in V. destruct (norm_index 0 i) eqn:N; [|discriminate].
+        apply norm_index_spec in N. lia.
+      * split; reflexivity.
+    + rewrite R. pose proof (rev_cons_split _ _ _ R) as E.
+      destruct (pop_end_inv0 s (rev r) x H E) as [P1 P2].
+      rewrite E, removelast_last.
+      destruct (cull_inv c _ P1) as [C1 C2]. cbn [fst snd].
+      split; [exact C1|]. rewrite C2. rewrite P2.
+      set (A := m_live {| items := rev r; imap := d_del (imap s) x; dead := dead s |}) in *.
+      destruct i as [i|]; cbn [spec_step].
+      * cbn [valid_op] in V. destruct (norm_index (length (m_live s)) i) as [j|] eqn:N; [|discriminate].
+        rewrite P2 in N. rewrite N.
+        assert (Ej : j = length A).
+        { apply norm_index_spec in N. destruct N as [Lj N]. rewrite app_length in *. simpl in *.
+          subst at_end. rewrite Hlen, P2, app_length in AE. simpl in AE.
+          apply orb_true_iff in AE. destruct AE as [AE|AE]; apply Z.eqb_eq in AE; subst i.
+          - replace (-1 <? 0)%Z with true in N by reflexivity. lia.
+          - destruct (Z.of_nat (length A + 1) - 1 <? 0)%Z eqn:C; lia. }
+        subst j. cbn [fst snd]. rewrite (l_delete_app A [] x (length A) eq_refl), app_nil_r.
+        rewrite (nth_app_mid A [] x (length A) eq_refl). split; reflexivity.
+      * rewrite rev_app_distr. simpl. rewrite removelast_last. split; reflexivity.
+  - (* pop(i) away from the end *)
+    destruct i as [i|]; [|subst at_end; discriminate].
+    cbn [valid_op] in V. destruct (norm_index (length (m_live s)) i) as [j|] eqn:N; [|discriminate].
+    destruct (real_index_ok s i j H N) as (r & x & R1 & R2 & R3).
+    rewrite R1, R2.
+    destruct (kill_inv0 s r x H R2) as [K1 K2].
+    destruct (cull_inv c _ K1) as [C1 C2]. cbn [fst snd spec_step]. rewrite N. cbn [fst snd].
+    split; [exact C1|]. rewrite C2, K2. unfold m_live. rewrite (live_split _ _ _ R2).
+    rewrite (l_delete_app _ _ x j R3), (nth_app_mid _ _ x j R3). split; reflexivity.
+Qed.
